@@ -124,6 +124,11 @@ def build(spec):
         for r in spec["req"].get(j, []):
             if hasattr(objs[j], "required") and (j, r) not in late:
                 objs[j].required.add(objs[r])     # raw edge (the API refuses self-loops)
+    gone = [tuple(e) for e in spec.get("gone_req", [])]
+    for j, r in gone:
+        # edges that exist only during the history: present while the tree is inspected, taken away before the observed call
+        if j < n and r < n and hasattr(objs[j], "required") and r not in spec["req"].get(j, []):
+            objs[j].required.add(objs[r])
     if spec.get("pre"):
         # a history before the observed call: the tree is inspected / run, THEN the edges of `late_req` are added.
         # `spec` describes the final graph; whatever the history left on the objects (ids, marks, back-links, tasks)
@@ -149,6 +154,9 @@ def build(spec):
                         top.run()
             except Exception:           # noqa
                 pass
+    for j, r in gone:
+        if j < n and r < n and hasattr(objs[j], "required") and r not in spec["req"].get(j, []):
+            objs[j].required.discard(objs[r])
     for j, r in sorted(late):
         if j < n and r < n and r in spec["req"].get(j, []) and hasattr(objs[j], "required"):
             objs[j].required.add(objs[r])
@@ -161,6 +169,19 @@ def with_history(spec, rng):
     edges = [(j, r) for j, rs in spec.get("req", {}).items() for r in rs]
     spec["late_req"] = [list(e) for e in edges if rng.random() < 0.5]
     spec["pre"] = rng.sample(["list", "list_safe", "dot", "check", "exit", "run"], rng.randint(1, 3))
+    # edges between siblings that exist only while the tree is inspected (taken away again before the observed call)
+    gone = []
+    for s_, mem in spec.get("mem", {}).items():
+        mem = list(mem)
+        if len(mem) >= 2 and rng.random() < 0.6:
+            # often exactly as many as the edges of this scheduler that come late: links *moved*, their number unchanged
+            nlate = sum(1 for j, r in spec["late_req"] if j in mem)
+            for _ in range(nlate if nlate and rng.random() < 0.7 else rng.randint(1, 2)):
+                j, r = rng.sample(mem, 2)
+                if r not in spec.get("req", {}).get(j, []) and [j, r] not in gone:
+                    gone.append([j, r])
+    if gone:
+        spec["gone_req"] = gone
     return spec
 
 
